@@ -386,6 +386,41 @@ func GenTrip(rng *rand.Rand, thorough bool, emit func(*Sx)) {
 		}
 	}
 
+	// several messages over one connection: the size of the earlier traffic must not matter
+	step := 13
+	if thorough {
+		step = 1
+	}
+	for n1 := 1500; n1 < 1900; n1 += step {
+		for _, lmtp := range []bool{false, true} {
+			if lmtp && n1%2 == 0 && !thorough {
+				continue
+			}
+			cfg := fullCfg(lmtp)
+			var b1 []byte
+			for len(b1) < n1 {
+				b1 = append(b1, "a line of the first message, 60 octets long, ends here ....\r\n"...)
+			}
+			b1 = b1[:n1]
+			b2 := []byte("Subject: " + strings.Repeat("s", 69) + "\r\n.dot line\r\n.\r\nend\r\n")
+			calls := []TripCall{{Kind: "mail", Arg: "s1@x"}, {Kind: "rcpt", Arg: "r1@x"}, {Kind: "data", Parts: [][]byte{b1}, Closes: 1},
+				{Kind: "mail", Arg: "s2@x"}, {Kind: "rcpt", Arg: "r2@x"}, {Kind: "rcpt", Arg: "r3@x"}, {Kind: "data", Parts: [][]byte{b2}, Closes: 1},
+				{Kind: "mail", Arg: "s3@x"}, {Kind: "rcpt", Arg: "r4@x"}, {Kind: "data", Parts: [][]byte{[]byte("third\r\n")}, Closes: 1},
+				{Kind: "quit"}}
+			emit(RunTrip(TripCase{Cfg: cfg, LMTP: lmtp, Calls: calls, Extra: []*Sx{L(A("focus"), A("C16"))}}))
+		}
+	}
+	// many recipients, then a message
+	for _, nr := range []int{40, 90} {
+		cfg := fullCfg(false)
+		calls := []TripCall{{Kind: "mail", Arg: "s@x"}}
+		for i := 0; i < nr; i++ {
+			calls = append(calls, TripCall{Kind: "rcpt", Arg: fmt.Sprintf("recipient-number-%03d@example.org", i)})
+		}
+		calls = append(calls, TripCall{Kind: "data", Parts: [][]byte{[]byte("Subject: " + strings.Repeat("s", 69) + "\r\nbody\r\n")}, Closes: 1}, TripCall{Kind: "noop"}, TripCall{Kind: "quit"})
+		emit(RunTrip(TripCase{Cfg: cfg, Calls: calls, Extra: []*Sx{L(A("focus"), A("C16"))}}))
+	}
+
 	// ---- C17: backend errors at the four callbacks ----
 	msgs := []string{"", " lead", "trail ", "5.1.1 looks like a code", "café", "one\ntwo", "one\ntwo\nthree", "550 5.1.1 x", "x\n\ny"}
 	ecs := [][3]int{{0, 0, 0}, {5, 1, 1}, {4, 2, 0}, {-1, -1, -1}}
